@@ -60,7 +60,7 @@ def run(prop, tier, seed, mode):
     cfg = (vlib.SPEC / "Trace_FrpsSessions.cfg").read_text()
     tf = d / "sessions.ndjson"
     n = 25 if tier == "quick" else 200
-    p = vlib.run_driver(drv, ["sessions", "-seed", seed, "-n", n, "-steps", 18, "-out", tf, "-mode", mode], timeout=2400)
+    p = vlib.run_driver(drv, ["sessions", "-seed", seed, "-n", n, "-steps", 18, "-out", tf, "-mode", mode], timeout=2400, env_extra=vlib.trace_env("Trace_FrpsSessions"))
     parse_stats(p.stdout, stats)
     ok = validate(v, "Trace_FrpsSessions", cfg, tf, f"sessions[{mode}]")
     if ok:
@@ -70,7 +70,7 @@ def run(prop, tier, seed, mode):
     if ok and mode == "own":
         tf2 = d / "namerace.ndjson"
         rounds = 1500 if tier == "quick" else 10000
-        p = vlib.run_driver(drv, ["sessions", "-seed", seed, "-namerace", rounds, "-out", tf2], timeout=2400)
+        p = vlib.run_driver(drv, ["sessions", "-seed", seed, "-namerace", rounds, "-out", tf2], timeout=2400, env_extra=vlib.trace_env("Trace_FrpsSessions"))
         parse_stats(p.stdout, stats)
         validate(v, "Trace_FrpsSessions", cfg, tf2, "name race stress")
     if ok and mode == "own":
